@@ -74,13 +74,13 @@ Definition wf_clauses : list Prop := [
   (* both permutations are bijections on 0..n-1 *)
   is_perm perm_r;
   is_perm perm_c;
-  (* supernodes partition the columns into contiguous ranges ... *)
-  fst_col 0 = 0;
-  bounded (fun s => fst_col s < end_col s) ns;
-  bounded (fun s => end_col s = fst_col (s + 1)) (ns - 1);
-  end_col (ns - 1) = n;
-  (* ... with mutually consistent column-to-supernode and supernode-to-column maps *)
+  (* supernodes partition the columns into contiguous ranges: every supernode is a non-empty range of columns, every column
+     lies in the range of the supernode col_to_sup names, and every column of a supernode's range names that supernode
+     (the maps are mutually consistent; hence the ranges are pairwise disjoint and cover 0..n-1, see supernodes_partition).
+     NOTE: supernode numbers are handed out in completion order by the threads, not in column order. *)
+  bounded (fun s => (0 <= fst_col s /\ fst_col s < end_col s) /\ end_col s <= n) ns;
   bounded (fun j => (0 <= sup_of j /\ sup_of j < ns) /\ (fst_col (sup_of j) <= j /\ j < end_col (sup_of j))) n;
+  bounded (fun s => bounded (fun c => sup_of (fst_col s + c) = s) (width s)) ns;
   (* each supernode's row list lies inside rowind and begins with its own columns in order ... *)
   bounded (fun s => 0 <= rbeg s /\ rend s <= zlen (L_rowind L) /\ width s <= nsupr s) ns;
   bounded (fun s => bounded (fun t => zn (L_rowind L) (rbeg s + t) = fst_col s + t) (width s)) ns;
@@ -105,6 +105,12 @@ Definition wf_clauses : list Prop := [
                       (zn (L_nzval_colbeg L) (fst_col t)) (zn (L_nzval_colbeg L) (fst_col t) + width t * nsupr t)) ns) ns;
   bounded (fun i => bounded (fun j => i = j \/
              disjoint (zn (U_colbeg U) i) (zn (U_colend U) i) (zn (U_colbeg U) j) (zn (U_colend U) j)) n) n;
+  (* visiting supernodes in index order respects the triangular dependency order used by the solves: the rows below the
+     diagonal block of supernode s belong to supernodes with a larger number, the rows of a column of U to supernodes with a
+     smaller number than the column's *)
+  bounded (fun s => bounded (fun t => s < sup_of (zn (L_rowind L) (rbeg s + width s + t))) (nsupr s - width s)) ns;
+  bounded (fun j => bounded (fun t => sup_of (zn (U_rowind U) (zn (U_colbeg U) j + t)) < sup_of j)
+                            (zn (U_colend U) j - zn (U_colbeg U) j)) n;
   (* the nnz fields equal the counted entries (L: lower trapezoid incl. the unit diagonal; U: the columns of U plus
      the upper triangles of the supernodal diagonal blocks, which live in L's value array) *)
   L_nnz L = fold_left (fun a s => a + (width s * nsupr s - width s * (width s - 1) / 2)) (zrange 0 ns) 0;
@@ -138,11 +144,9 @@ Definition check_clauses : list bool := [
   (n <=? zlen (U_colbeg U)) && (n <=? zlen (U_colend U));
   is_permb perm_r;
   is_permb perm_c;
-  fst_col 0 =? 0;
-  ballZ ns (fun s => fst_col s <? end_col s);
-  ballZ (ns - 1) (fun s => end_col s =? fst_col (s + 1));
-  end_col (ns - 1) =? n;
+  ballZ ns (fun s => ((0 <=? fst_col s) && (fst_col s <? end_col s)) && (end_col s <=? n));
   ballZ n (fun j => ((0 <=? sup_of j) && (sup_of j <? ns)) && ((fst_col (sup_of j) <=? j) && (j <? end_col (sup_of j))));
+  ballZ ns (fun s => ballZ (width s) (fun c => sup_of (fst_col s + c) =? s));
   ballZ ns (fun s => (0 <=? rbeg s) && ((rend s <=? zlen (L_rowind L)) && (width s <=? nsupr s)));
   ballZ ns (fun s => ballZ (width s) (fun t => zn (L_rowind L) (rbeg s + t) =? fst_col s + t));
   ballZ ns (fun s => ballZ (nsupr s - width s) (fun t => (end_col s <=? zn (L_rowind L) (rbeg s + width s + t))
@@ -162,6 +166,9 @@ Definition check_clauses : list bool := [
                        (zn (L_nzval_colbeg L) (fst_col t)) (zn (L_nzval_colbeg L) (fst_col t) + width t * nsupr t)));
   ballZ n (fun i => ballZ n (fun j => (i =? j) ||
              disjointb (zn (U_colbeg U) i) (zn (U_colend U) i) (zn (U_colbeg U) j) (zn (U_colend U) j)));
+  ballZ ns (fun s => ballZ (nsupr s - width s) (fun t => s <? sup_of (zn (L_rowind L) (rbeg s + width s + t))));
+  ballZ n (fun j => ballZ (zn (U_colend U) j - zn (U_colbeg U) j)
+                          (fun t => sup_of (zn (U_rowind U) (zn (U_colbeg U) j + t)) <? sup_of j));
   L_nnz L =? fold_left (fun a s => a + (width s * nsupr s - width s * (width s - 1) / 2)) (zrange 0 ns) 0;
   U_nnz U =? fold_left (fun a j => a + (zn (U_colend U) j - zn (U_colbeg U) j)) (zrange 0 n) 0
              + fold_left (fun a s => a + width s * (width s + 1) / 2) (zrange 0 ns) 0
@@ -202,8 +209,30 @@ Definition fixupL_sn (perm_r : list Z) (st : list Z * list Z * list Z * Z) (fsup
                (zrange jstrt (zn xlsub_end fsupc)) (lsub, nextl) in
   (lsub1, xlsub1, zupd xlsub_end fsupc nextl1, nextl1).
 
-(* returns (lsub, xlsub, xlsub_end) after the call *)
+(* the insertion sort of fixupL (SRC/util.c, after the F1 repair): order[] = supernodes by increasing xlsub[xsup[.]];
+     for i = 1..nsuper: k = order[i]; j = i-1; while (j >= 0 && key(order[j]) > key(k)) { order[j+1] = order[j]; j--; } order[j+1] = k;
+   the scan runs from the right end of the sorted prefix: modelled on the reversed prefix *)
+Fixpoint ins_rev (key : Z -> Z) (k : Z) (r : list Z) : list Z :=
+  match r with
+  | [] => [k]
+  | h :: t => if key k <? key h then h :: ins_rev key k t else k :: h :: t
+  end.
+Definition storage_order (key : Z -> Z) (nsuper : Z) : list Z :=
+  rev (fold_left (fun r k => ins_rev key k r) (zrange 0 (nsuper + 1)) []).
+
+(* fixupL as it is in the tree: compaction in STORAGE order.  returns (lsub, xlsub, xlsub_end) after the call *)
 Definition fixupL (n : Z) (perm_r : list Z) (G : glu) : list Z * list Z * list Z :=
+  if n <=? 1 then (g_lsub G, g_xlsub G, g_xlsub_end G) else
+  let nsuper := zn (g_supno G) n in
+  let order := storage_order (fun k => zn (g_xlsub G) (zn (g_xsup G) k)) nsuper in
+  let '(lsub, xlsub, xlsub_end, nextl) :=
+     fold_left (fun st i => fixupL_sn perm_r st (zn (g_xsup G) i)) order
+               (g_lsub G, g_xlsub G, g_xlsub_end G, 0) in
+  (lsub, zupd xlsub n nextl, xlsub_end).
+
+(* the compaction in supernode-NUMBER order (the code before the repair of finding F1); kept for the regression theorem
+   fixupL_number_order_refuted *)
+Definition fixupL_number_order (n : Z) (perm_r : list Z) (G : glu) : list Z * list Z * list Z :=
   if n <=? 1 then (g_lsub G, g_xlsub G, g_xlsub_end G) else
   let nsuper := zn (g_supno G) n in
   let '(lsub, xlsub, xlsub_end, nextl) :=
